@@ -403,3 +403,14 @@ LHAInputStream *lha_input_stream_from_FILE(FILE *stream)
 	lha_arch_set_binary(stream);
 	return lha_input_stream_new(&file_source_unowned, stream);
 }
+
+#ifdef LHASA_VERIF
+#include "lhasa_verif.h"
+
+void lhasa_verif_stream_project(LHAInputStream *stream,
+                                int *state, size_t *leadin_len)
+{
+	*state = (int) stream->state;
+	*leadin_len = stream->leadin_len;
+}
+#endif /* #ifdef LHASA_VERIF */
